@@ -7,11 +7,11 @@ package main
 // Leg B:   random type compositions and values; recorded enc/dec calls judged by Wire_Trace (TLC).
 
 import (
-	"strings"
 	"bytes"
 	"encoding/json"
 	"fmt"
 	"math/rand"
+	"strings"
 	"time"
 
 	pk "github.com/Tnze/go-mc/net/packet"
